@@ -70,6 +70,10 @@ def spec_term(case, ob) -> str:
         ns = [f"{{| tn_kind := {KIND.get(r[1], 0)}; tn_addr := {C.z(r[2])}; tn_pc := {C.z(r[3])}; "
               f"tn_bytes := {C.zlist(r[4] if isinstance(r[4], list) else [])}; "
               f"tn_ips := {C.clist(r[5] if len(r) > 5 else [], lambda b: C.cpair(C.zlist(b[0]), C.z(b[1])))} |}}" for r in tr["emit"]]
+        if "ips_expected" in sp:
+            exp = C.clist(sp["ips_expected"], lambda b: C.cpair(C.zlist(b[0]), C.z(b[1])))
+            return (f"(SBlocksI {C.cbool(sp['high'])} {C.cbool(sp.get('user_map', False))} [{';'.join(ns)}] "
+                    f"{C.z(tr['end_pc'])} {exp})")
         return (f"(SBlocks {C.cbool(sp['high'])} {C.cbool(sp.get('user_map', False))} [{';'.join(ns)}] "
                 f"{C.z(tr['end_pc'])})")
     raise ValueError(t)
